@@ -13,7 +13,7 @@ RECORDS = []
 LEMMAS = []      # (name, props, callable -> list of (subname, hyps, goal))
 
 
-def register(file, qualname, inst_name, inst, contract, specs=None, callees=None, props=(), extra_hyps=None, setup=None, lemma_deps=(), thorough_only=False):
+def register(file, qualname, inst_name, inst, contract, specs=None, callees=None, props=(), extra_hyps=None, setup=None, lemma_deps=(), thorough_only=False, cex=None):
     """specs: dict or callable returning a fresh dict; extra_hyps: callable(engine) -> list of z3 terms (instantiated L lemmas, axioms);
     setup: callable(engine) run after construction (late-bound spec functions); lemma_deps: names of L lemmas the contract uses as hypotheses"""
     props = tuple(props)
@@ -22,7 +22,7 @@ def register(file, qualname, inst_name, inst, contract, specs=None, callees=None
     heavy = qualname in ("_rolling_max_or_min_1d", "_rolling_sum_or_mean_1d") and not inst_name.startswith(("float,chunked,mask=None,max", "float,chunked,mask=None,sum"))
     if contract.get("frozen") and "C19" not in props and not heavy and not contract.get("no_auto_props"): props += ("C19",)
     RECORDS.append(dict(file=file, qualname=qualname, inst_name=inst_name, inst=inst, contract=contract, specs=specs, callees=callees or {},
-                        props=props, extra_hyps=extra_hyps, setup=setup, lemma_deps=tuple(lemma_deps), thorough_only=thorough_only))
+                        props=props, extra_hyps=extra_hyps, setup=setup, lemma_deps=tuple(lemma_deps), thorough_only=thorough_only, cex=cex))
 
 
 def lemma(name, props):
